@@ -102,10 +102,33 @@ F8API size_t modp_dtoa(double value, char* str, int prec) // DD
         value = -value;
     }
 
+    /* for very large numbers switch back to native sprintf for exponentials.
+       anyone want to write code to replace this? */
+    /*
+      normal printf behavior is to print EVERY whole number digit
+      which can be 100s of characters overflowing your buffers == bad
+    */
+    /* tested first: converting to int is undefined above INT_MAX, and so is
+       rounding INT_MAX up */
+    if (value > thres_max)
+        return sprintf(str, "%e", neg ? -value : value); // DD
+
     whole = (int) value;
     tmp = (value - whole) * pow10_[prec];
     frac = (uint32_t)(tmp);
     diff = tmp - frac;
+
+    if (diff == 0.5) {
+        /* tmp is a rounded product, so the value may really be just below or
+           just above halfway (0.95 is 0.94999...).  fma gives the exact rounding
+           error of the product, i.e. the side the value is on.  What is left as
+           0.5 is an exact binary tie, which never has an all-nines fraction. */
+        const double err = fma(value - whole, pow10_[prec], -tmp);
+        if (err > 0)
+            diff = 0.75;
+        else if (err < 0)
+            diff = 0.25;
+    }
 
     if (diff > 0.5) {
         ++frac;
@@ -119,15 +142,6 @@ F8API size_t modp_dtoa(double value, char* str, int prec) // DD
            if last digit is 0.  That last part is strange */
         ++frac;
     }
-
-    /* for very large numbers switch back to native sprintf for exponentials.
-       anyone want to write code to replace this? */
-    /*
-      normal printf behavior is to print EVERY whole number digit
-      which can be 100s of characters overflowing your buffers == bad
-    */
-    if (value > thres_max)
-        return sprintf(str, "%e", neg ? -value : value); // DD
 
     if (prec == 0) {
         diff = value - whole;
